@@ -744,6 +744,58 @@ theorem exec_marks (v : Variant) (cfg : Config) (env : StyleEnv σ) (ops : List 
     simp only [List.all_cons, Bool.and_eq_true, Bool.not_eq_true'] at hops
     rw [exec_cons, ih _ hops.2, step_marks v cfg env s op hops.1]
 
+/-! ## several consoles -/
+
+/-- Several consoles alive together: console `k` has its own configuration, style table and state; an operation is
+addressed to one console. -/
+def multiStep (v : Variant) (cfgs : Nat → Config) (envs : Nat → StyleEnv σ) (sts : Nat → State σ)
+    (k : Nat) (op : Op σ) : (Nat → State σ) × Out :=
+  let r := step v (cfgs k) (envs k) (sts k) op
+  (fun j => if j = k then r.1 else sts j, r.2)
+
+/-- An interleaved history: (console, operation) pairs; answers tagged with their console. -/
+def multiRun (v : Variant) (cfgs : Nat → Config) (envs : Nat → StyleEnv σ) :
+    List (Nat × Op σ) → (Nat → State σ) → (Nat → State σ) × List (Nat × Out)
+  | [], sts => (sts, [])
+  | (k, op) :: rest, sts =>
+    let r := multiStep v cfgs envs sts k op
+    let r2 := multiRun v cfgs envs rest r.1
+    (r2.1, (k, r.2) :: r2.2)
+
+/-- the operations addressed to console `k`, in order -/
+def projOps (k : Nat) (sched : List (Nat × Op σ)) : List (Op σ) :=
+  (sched.filter (fun p => p.1 == k)).map (·.2)
+
+/-- the answers console `k` got, in order -/
+def projOuts (k : Nat) (outs : List (Nat × Out)) : List Out :=
+  (outs.filter (fun p => p.1 == k)).map (·.2)
+
+/-- **Consoles do not interfere**: in any interleaving, every console ends in the state, and gets the answers, of
+its own history run alone — record, file, buffer, capture depth, exports and captures alike. -/
+theorem multiRun_proj (v : Variant) (cfgs : Nat → Config) (envs : Nat → StyleEnv σ) :
+    ∀ (sched : List (Nat × Op σ)) (sts : Nat → State σ) (k : Nat),
+      (multiRun v cfgs envs sched sts).1 k = (run v (cfgs k) (envs k) (projOps k sched) (sts k)).1 ∧
+      projOuts k (multiRun v cfgs envs sched sts).2 = (run v (cfgs k) (envs k) (projOps k sched) (sts k)).2
+  | [], sts, k => ⟨rfl, rfl⟩
+  | (j, op) :: rest, sts, k => by
+    obtain ⟨h1, h2⟩ := multiRun_proj v cfgs envs rest (multiStep v cfgs envs sts j op).1 k
+    by_cases hjk : j = k
+    · subst hjk
+      simp only [multiRun, projOps, projOuts, List.filter_cons, beq_self_eq_true, if_true, List.map_cons, run]
+      simp only [projOps, projOuts] at h1 h2
+      rw [h1, h2]
+      simp [multiStep]
+    · have hb : (j == k) = false := by simpa using hjk
+      simp only [multiRun, projOps, projOuts, List.filter_cons, hb, Bool.false_eq_true, if_false]
+      simp only [projOps, projOuts] at h1 h2
+      rw [h1, h2]
+      have : (multiStep v cfgs envs sts j op).1 k = sts k := by
+        simp only [multiStep]
+        have : ¬ k = j := fun e => hjk e.symm
+        simp [this]
+      rw [this]
+      exact ⟨rfl, rfl⟩
+
 /-! ## reachable states -/
 
 /-- Capture blocks are never closed more often than opened (`d` = current depth). -/
